@@ -9,7 +9,7 @@ by running the real code forward: valid frames are fed (one per read, two per re
 the same frame repeated, two frames alternating) until 2 x 256 bytes of valid
 traffic have been given; then each of the next 4 reads' frames must be delivered
 exactly once, and the backlog must stay below 2 x 256 bytes + one frame throughout.
-Two caller policies: 'raw' (the caller just calls again after an exception) and
+Also through the real serial server handler (sync-serial front-end).  Two caller policies: 'raw' (the caller just calls again after an exception) and
 'reset' (the caller resets the framer after an exception, as the serial server
 handler and the client transaction do).
 """
@@ -219,7 +219,59 @@ def explore(acc, framing, side, depth, reduced_from=2, part=0, parts=1):
                         states=st.states, valid_frame=same(framing, side).hex()))
 
 
+def explore_handler(acc, framing, depth):
+    """the same obligation through the REAL serial server handler (which resets its framer on exceptions):
+    garbage chunks, then valid requests one per read; after 512 bytes of valid traffic each of the next
+    4 requests must be answered exactly once"""
+    from harness import servers, scenario
+    ev = garbage(framing, 'req')
+    small = [e for e in ev if gclass(e[0]) in ('bad-checksum', 'foreign-unit', 'char-deleted', 'non-hex', 'empty-braces', 'bare-colon-crlf')
+             or e[0] in ('byte7B', 'byte7D', 'byte3A', 'byte0D', 'unit', 'fc10', 'trunc3', 'trunc5')]
+    seqs = [(a,) for a in ev] + [(a, b) for a in ev for b in small]
+    if depth >= 3:
+        seqs += [(a, b, c) for a in small for b in small for c in small]
+    one = len(same(framing, 'req'))
+    for seq in seqs:
+        cfg = scenario.Cfg(False, (UNIT,), False, False)
+        ctx, ref, real = scenario.build(cfg)
+        srv = servers.Server('sync-serial', framing, ctx)
+        conn = srv.open()
+        for name, chunk in seq:
+            conn.run_script([chunk])
+        fed, i = 0, 0
+        while fed < WARM:
+            f = valid(framing, 'req', i)
+            conn.run_script([f])
+            fed += len(f)
+            i += 1
+        answered = 0
+        for r in range(4):
+            out = conn.run_script([valid(framing, 'req', 1000 + r)])
+            answered += 1 if len(out) == 1 else 0
+        backlog = len(srv.obj.handler.framer._buffer)
+        acc.inc('obligations')
+        names = [n for n, _ in seq]
+        what = None
+        if answered < 4:
+            what = 'deaf' if answered == 0 else 'late-or-lost'
+        elif backlog >= WARM + one + 16:
+            what = 'backlog-unbounded'
+        if srv.escaped:
+            what = 'escape:' + type(srv.escaped[0][1]).__name__
+        if what:
+            acc.violation('C11/%s/handler/%s/handler/%s' % (framing, what, '+'.join(gclass(n) for n in names)),
+                          dict(framing=framing, side='handler', garbage=names), '%d of 4 requests answered after the garbage and 512 bytes of valid traffic' % answered,
+                          '%s/handler' % framing)
+        else:
+            acc.inc('discharged')
+    acc.add('nontrivial', ('handler', framing))
+
+
 def shard(args):
+    if args[0] == 'handler':
+        acc = Acc()
+        explore_handler(acc, args[1], args[2])
+        return acc
     framing, side, depth, part, parts = args
     acc = Acc()
     explore(acc, framing, side, depth, part=part, parts=parts)
@@ -230,6 +282,7 @@ def run(tier, seed):
     depth = 2 if tier == 'quick' else 3
     parts = 8
     shards = [(f, s, depth, k, parts) for f in ('rtu', 'ascii', 'binary') for s in ('req', 'rsp') for k in range(parts)]
+    shards += [('handler', f, depth) for f in ('rtu', 'ascii', 'binary')]
     acc = par.run_shards(shard, shards)
     acc.n['traces_validated_against_impl'] = acc.n.get('obligations', 0)
     acc.n['evaluations'] = acc.n.get('obligations', 0)
@@ -247,6 +300,11 @@ def run(tier, seed):
 
 
 def replay(w):
+    if w['side'] == 'handler':
+        acc = Acc()
+        explore_handler(acc, w['framing'], 3)
+        vs = [v for v in acc.violations if v['witness'] == w]
+        return bool(vs), '\n'.join(v['msg'] for v in vs) or 'no violation'
     framing, side = w['framing'], w['side']
     ev = dict(garbage(framing, side))
     fr = framers.make(framing, side)
